@@ -157,7 +157,7 @@ def e2_simple(oracle, IC, tmin, tmax, log, fails, counters, annot=None, states=N
     return events
 
 
-def e2_complex(G, rate_fn, chooser, IC, tmin, tmax, log, chooser_calls, fails, counters, annot=None, states=None, partial=False):
+def e2_complex(G, rate_fn, chooser, IC, tmin, tmax, log, chooser_calls, fails, counters, annot=None, states=None, partial=False, two_scale=False):
     """complex contagion: clock == sum over ALL nodes of the user rate on the current statuses, candidates == nodes of positive
     rate with weight == rate, new status == chooser's answer, stop iff all rates 0 or t>=tmax."""
     status = dict(IC)
@@ -178,6 +178,12 @@ def e2_complex(G, rate_fn, chooser, IC, tmin, tmax, log, chooser_calls, fails, c
         nonlocal t
         rates = {u: rate_fn(G, u, status) for u in nodes}
         lam = sum(rates.values())
+        if two_scale and lam < 1e-9 * maxrate[0]:
+            # a model whose rates live on two scales more than nine orders of magnitude apart: once the last fast node has left, the
+            # residue a running total may carry from the fast scale is gone as well (the sampler re-sums on near-total cancellation,
+            # the standard C16 holds it to) - the total is again the sum of the slow rates to relative accuracy
+            maxrate[0] = lam
+            bump('clock_totals_checked_after_the_fast_scale_left')
         maxrate[0] = max(maxrate[0], lam)
         tol = 1e-9 * lam + 1e-12 * maxrate[0]
         e = cur.peek()
